@@ -2,7 +2,7 @@
 with the arithmetic-free parts decided by exhaustive case analysis (R-CASES)."""
 from __future__ import annotations
 import re
-from ..astq import Node, up, strip, strip_cast, walk_no_nested_fn, calls, dominates, binding_before, stmt_of
+from ..astq import Node, up, strip, strip_cast, walk_no_nested_fn, calls, dominates, binding_before, stmt_of, _tnorm
 from ..rules.layout import origin
 from ..rules.pred import weak_orders, order_str, Pred
 from ..rules.interp import Interp, NotPure
@@ -15,6 +15,16 @@ BW = "bigtools/src/bbi/bigbedwrite.rs"
 def _let(fn, name, at):
     b = binding_before(fn, name, at)
     return b[1] if b is not None and b[0] == "let" else None
+
+
+def _minmax(n, which):
+    """arguments of min(a, b) / std::cmp::min(a, b) / a.min(b) (or max), else None"""
+    n = strip(n)
+    if n.k == "call" and up(n["func"]).split("::")[-1] == which and len(n["args"]) == 2:
+        return list(n["args"])
+    if n.k == "mcall" and n["method"] == which and len(n["args"]) == 1:
+        return [n["recv"], n["args"][0]]
+    return None
 
 
 def _tiling(ctx, res, fn, what, val_start_ok, val_end_ok):
@@ -48,12 +58,13 @@ def _tiling(ctx, res, fn, what, val_start_ok, val_end_ok):
                  "(panic with overflow checks, otherwise the cursor never advances and the write hangs); it must saturate" % up(strip(ne[0]["init"])))
         return
     # (b) add_end = min(next_end, value_end)
-    ae = [n for n in walk_no_nested_fn(body) if n.k == "let" and n.get("init") is not None and re.fullmatch(r"(std::cmp::)?min\(.*\)", up(strip(n["init"])))]
+    ae = [n for n in walk_no_nested_fn(body) if n.k == "let" and n.get("init") is not None and _minmax(n["init"], "min") is not None]
     if len(ae) != 1:
-        res.fail(what + "/add_end", lp, "`add_end = min(next_end, value_end)` not found")
+        res.undecided(what + "/add_end", lp, "`add_end = min(next_end, value_end)` not found as one `let`: tiling clauses not decided") if not ae else \
+            res.fail(what + "/add_end", lp, "`add_end = min(next_end, value_end)` not found")
         return
     add_end = up(ae[0]["pat"])
-    margs = [up(strip(a)) for a in strip(ae[0]["init"])["args"]]
+    margs = [up(strip(a)) for a in _minmax(ae[0]["init"], "min")]
     if next_end not in margs or len(margs) != 2:
         res.fail(what + "/add_end-args", ae[0], "add_end must be min(next_end, value end); got min(%s)" % ",".join(margs))
         return
@@ -188,8 +199,8 @@ def _tiling(ctx, res, fn, what, val_start_ok, val_end_ok):
     if not eoc_ok:
         res.fail(what + "/eoc-ship", lp, "remaining records must be shipped at the end of the chromosome (no next value, records not empty)")
         return
-    ex = [n for n in walk_no_nested_fn(body) if n.k == "if" and up(strip(n["cond"])).replace(" ", "") in ("%s>=%s" % (add_start, vend), "%s<=%s" % (vend, add_start))
-          and "break" in up(n["then"])]
+    from ..astq import upn
+    ex = [n for n in walk_no_nested_fn(body) if n.k == "if" and upn(fn, n["cond"]) == "%s <= %s" % (vend, add_start) and "break" in up(n["then"])]
     if len(ex) != 1:
         res.fail(what + "/exit", lp, "loop must exit when add_start >= value end")
         return
